@@ -262,9 +262,69 @@ impl fmt::Debug for ThreadPool {
     }
 }
 
-pub struct Scope<'scope>(PhantomData<&'scope ()>);
+type ScopeJob<'scope> = Box<dyn FnOnce(&Scope<'scope>) + Send + 'scope>;
+
+pub struct Scope<'scope> {
+    spawned: std::sync::Mutex<Vec<ScopeJob<'scope>>>,
+    _marker: PhantomData<&'scope ()>,
+}
+
+impl<'scope> Scope<'scope> {
+    fn new() -> Self {
+        Scope { spawned: std::sync::Mutex::new(Vec::new()), _marker: PhantomData }
+    }
+
+    /// `scope.spawn`: the job runs on some worker before the scope returns. The stand-in starts
+    /// spawned jobs once the scope body has returned (rayon may start them earlier; it
+    /// guarantees only that they are done when `scope` returns).
+    pub fn spawn<BODY>(&self, body: BODY)
+    where
+        BODY: FnOnce(&Scope<'scope>) + Send + 'scope,
+    {
+        self.spawned.lock().unwrap().push(Box::new(body));
+    }
+
+    fn drain(&self) {
+        loop {
+            let jobs: Vec<ScopeJob<'scope>> = std::mem::take(&mut *self.spawned.lock().unwrap());
+            if jobs.is_empty() {
+                break;
+            }
+            let cells: Vec<std::sync::Mutex<Option<ScopeJob<'scope>>>> = jobs.into_iter().map(|j| std::sync::Mutex::new(Some(j))).collect();
+            let me = SendPtr(self as *const Scope<'scope>);
+            let _ = par_map((0..cells.len()).collect(), &|i: usize| {
+                let job = cells[i].lock().unwrap().take().unwrap();
+                // SAFETY: `self` outlives this call; Scope is only shared for pushing jobs
+                let sc: &Scope<'scope> = unsafe { &*me.get() };
+                job(sc);
+            });
+        }
+    }
+}
+
+struct SendPtr<T>(*const T);
+unsafe impl<T> Send for SendPtr<T> {}
+unsafe impl<T> Sync for SendPtr<T> {}
+impl<T> SendPtr<T> {
+    fn get(&self) -> *const T {
+        self.0
+    }
+}
 
 impl ThreadPool {
+    pub fn current_num_threads(&self) -> usize {
+        self.inner.k
+    }
+
+    /// `install`: run `op` inside this pool (parallel iterators in it use this pool)
+    pub fn install<OP, R>(&self, op: OP) -> R
+    where
+        OP: FnOnce() -> R + Send,
+        R: Send,
+    {
+        self.scope(|_| op())
+    }
+
     pub fn scope<'scope, OP, R>(&self, op: OP) -> R
     where
         OP: FnOnce(&Scope<'scope>) -> R + Send,
@@ -285,8 +345,17 @@ impl ThreadPool {
         }
         let old = STATE.with(|s| s.borrow_mut().pool.replace(self.inner.clone()));
         let _restore = Restore(Some(old));
-        op(&Scope(PhantomData))
+        let sc = Scope::new();
+        let r = op(&sc);
+        sc.drain();
+        r
     }
+}
+
+shuttle::thread_local! {
+    /// this simulated thread is currently executing items of a parallel call: a nested parallel
+    /// call made from inside such an item runs inline (the pool has one job slot)
+    static BUSY: std::cell::Cell<bool> = std::cell::Cell::new(false);
 }
 
 fn coin(n: u64) -> u64 {
@@ -350,8 +419,9 @@ fn par_map<T: Send, R: Send>(mut items: Vec<T>, f: &(impl Fn(T) -> R + Sync)) ->
             s.stats.calls_with_fewer_items_than_workers += 1;
         }
     });
+    let nested = BUSY.with(|b| b.get());
     let pool = match pool {
-        Some(p) if workers > 1 => p,
+        Some(p) if workers > 1 && !nested => p,
         _ => {
             // the calling thread does all the work itself (rayon's caller participates)
             STATE.with(|s| s.borrow_mut().stats.inline_calls += 1);
@@ -369,6 +439,7 @@ fn par_map<T: Send, R: Send>(mut items: Vec<T>, f: &(impl Fn(T) -> R + Sync)) ->
     let outs: Mutex<Vec<Vec<R>>> = Mutex::new(Vec::with_capacity(workers));
     let job = || {
         let mut out = Vec::new();
+        let was = BUSY.with(|b| b.replace(true));
         loop {
             let item = queue.lock().unwrap().next();
             match item {
@@ -381,6 +452,7 @@ fn par_map<T: Send, R: Send>(mut items: Vec<T>, f: &(impl Fn(T) -> R + Sync)) ->
                 None => break,
             }
         }
+        BUSY.with(|b| b.set(was));
         outs.lock().unwrap().push(out);
     };
     if caller_too {
@@ -393,16 +465,33 @@ fn par_map<T: Send, R: Send>(mut items: Vec<T>, f: &(impl Fn(T) -> R + Sync)) ->
 }
 
 pub mod iter {
+    //! The parallel-iterator surface: what cfr uses today plus the neighbouring rayon API a
+    //! realistic change to cfr might reach for (`par_iter`, `into_par_iter`, `for_each`,
+    //! `collect`, `reduce`, `filter`, `enumerate`, ...), so that such a change still builds
+    //! against the stand-in. Everything funnels into `par_map`.
     use super::par_map;
     use std::collections::HashMap;
     use std::hash::{BuildHasher, Hash};
     use std::iter::Sum;
-    use std::ops::RangeBounds;
+    use std::ops::{Range, RangeBounds};
 
     pub trait ParallelIterator: Sized + Send {
         type Item: Send;
-        /// shim-internal: evaluate, returning per-worker result chunks
-        fn chunks(self) -> Vec<Vec<Self::Item>>;
+        /// shim-internal: evaluate; per-worker result chunks, every item tagged with its index
+        /// in the iterator's sequential order
+        fn chunks_indexed(self) -> Vec<Vec<(usize, Self::Item)>>;
+
+        /// shim-internal: per-worker result chunks (no order)
+        fn chunks(self) -> Vec<Vec<Self::Item>> {
+            self.chunks_indexed().into_iter().map(|c| c.into_iter().map(|(_, x)| x).collect()).collect()
+        }
+
+        /// shim-internal: all items in sequential order
+        fn ordered(self) -> Vec<Self::Item> {
+            let mut v: Vec<(usize, Self::Item)> = self.chunks_indexed().into_iter().flatten().collect();
+            v.sort_by_key(|(i, _)| *i);
+            v.into_iter().map(|(_, x)| x).collect()
+        }
 
         fn map<F, R>(self, f: F) -> Map<Self, F>
         where
@@ -412,11 +501,98 @@ pub mod iter {
             Map { base: self, f }
         }
 
+        fn filter<P>(self, p: P) -> Filter<Self, P>
+        where
+            P: Fn(&Self::Item) -> bool + Sync + Send,
+        {
+            Filter { base: self, p }
+        }
+
+        fn filter_map<F, R>(self, f: F) -> FilterMap<Self, F>
+        where
+            F: Fn(Self::Item) -> Option<R> + Sync + Send,
+            R: Send,
+        {
+            FilterMap { base: self, f }
+        }
+
+        fn for_each<F>(self, f: F)
+        where
+            F: Fn(Self::Item) + Sync + Send,
+        {
+            let _ = self.map(f).chunks();
+        }
+
         fn sum<S>(self) -> S
         where
             S: Send + Sum<Self::Item> + Sum<S>,
         {
             self.chunks().into_iter().map(|c| c.into_iter().sum::<S>()).sum()
+        }
+
+        fn count(self) -> usize {
+            self.chunks().into_iter().map(|c| c.len()).sum()
+        }
+
+        fn reduce<OP, ID>(self, identity: ID, op: OP) -> Self::Item
+        where
+            OP: Fn(Self::Item, Self::Item) -> Self::Item + Sync + Send,
+            ID: Fn() -> Self::Item + Sync + Send,
+        {
+            // per-worker partial results combined in worker order: one of the groupings rayon's
+            // reduction tree may produce
+            let mut acc = identity();
+            for c in self.chunks() {
+                let mut part = identity();
+                for x in c {
+                    part = op(part, x);
+                }
+                acc = op(acc, part);
+            }
+            acc
+        }
+
+        fn collect<C>(self) -> C
+        where
+            C: FromParallelIterator<Self::Item>,
+        {
+            C::from_par_iter(self)
+        }
+    }
+
+    /// every iterator of the stand-in knows its order, so the indexed adaptors live here
+    pub trait IndexedParallelIterator: ParallelIterator {
+        fn enumerate(self) -> Items<(usize, Self::Item)> {
+            Items(self.ordered().into_iter().enumerate().collect())
+        }
+
+        fn zip<Z>(self, other: Z) -> Items<(Self::Item, <Z::Iter as ParallelIterator>::Item)>
+        where
+            Z: IntoParallelIterator,
+        {
+            Items(self.ordered().into_iter().zip(other.into_par_iter().ordered()).collect())
+        }
+    }
+
+    impl<T: ParallelIterator> IndexedParallelIterator for T {}
+
+    pub trait FromParallelIterator<T: Send> {
+        fn from_par_iter<I: IntoParallelIterator<Item = T>>(it: I) -> Self;
+    }
+
+    impl<T: Send> FromParallelIterator<T> for Vec<T> {
+        fn from_par_iter<I: IntoParallelIterator<Item = T>>(it: I) -> Self {
+            it.into_par_iter().ordered()
+        }
+    }
+
+    impl<K: Eq + Hash + Send, V: Send, S: BuildHasher + Default + Send> FromParallelIterator<(K, V)> for HashMap<K, V, S> {
+        fn from_par_iter<I: IntoParallelIterator<Item = (K, V)>>(it: I) -> Self {
+            let mut m = HashMap::default();
+            for c in it.into_par_iter().chunks() {
+                m.extend(c);
+            }
+            m
         }
     }
 
@@ -434,6 +610,62 @@ pub mod iter {
         }
     }
 
+    impl<T: Send> IntoParallelIterator for Vec<T> {
+        type Iter = Items<T>;
+        type Item = T;
+        fn into_par_iter(self) -> Items<T> {
+            Items(self)
+        }
+    }
+
+    impl<'a, T: Sync + 'a> IntoParallelIterator for &'a Vec<T> {
+        type Iter = Items<&'a T>;
+        type Item = &'a T;
+        fn into_par_iter(self) -> Items<&'a T> {
+            Items(self.iter().collect())
+        }
+    }
+
+    impl<'a, T: Sync + 'a> IntoParallelIterator for &'a [T] {
+        type Iter = Items<&'a T>;
+        type Item = &'a T;
+        fn into_par_iter(self) -> Items<&'a T> {
+            Items(self.iter().collect())
+        }
+    }
+
+    impl<'a, T: Send + 'a> IntoParallelIterator for &'a mut Vec<T> {
+        type Iter = Items<&'a mut T>;
+        type Item = &'a mut T;
+        fn into_par_iter(self) -> Items<&'a mut T> {
+            Items(self.iter_mut().collect())
+        }
+    }
+
+    impl<'a, T: Send + 'a> IntoParallelIterator for &'a mut [T] {
+        type Iter = Items<&'a mut T>;
+        type Item = &'a mut T;
+        fn into_par_iter(self) -> Items<&'a mut T> {
+            Items(self.iter_mut().collect())
+        }
+    }
+
+    impl IntoParallelIterator for Range<usize> {
+        type Iter = Items<usize>;
+        type Item = usize;
+        fn into_par_iter(self) -> Items<usize> {
+            Items(self.collect())
+        }
+    }
+
+    impl IntoParallelIterator for Range<u64> {
+        type Iter = Items<u64>;
+        type Item = u64;
+        fn into_par_iter(self) -> Items<u64> {
+            Items(self.collect())
+        }
+    }
+
     pub struct Map<I, F> {
         base: I,
         f: F,
@@ -445,18 +677,54 @@ pub mod iter {
         R: Send,
     {
         type Item = R;
-        fn chunks(self) -> Vec<Vec<R>> {
-            let items: Vec<I::Item> = self.base.chunks().into_iter().flatten().collect();
-            par_map(items, &self.f)
+        fn chunks_indexed(self) -> Vec<Vec<(usize, R)>> {
+            let items: Vec<(usize, I::Item)> = self.base.chunks_indexed().into_iter().flatten().collect();
+            let f = self.f;
+            par_map(items, &|(i, x)| (i, f(x)))
         }
     }
 
-    pub struct Items<T>(Vec<T>);
+    pub struct Filter<I, P> {
+        base: I,
+        p: P,
+    }
+
+    impl<I: ParallelIterator, P> ParallelIterator for Filter<I, P>
+    where
+        P: Fn(&I::Item) -> bool + Sync + Send,
+    {
+        type Item = I::Item;
+        fn chunks_indexed(self) -> Vec<Vec<(usize, I::Item)>> {
+            let items: Vec<(usize, I::Item)> = self.base.chunks_indexed().into_iter().flatten().collect();
+            let p = self.p;
+            par_map(items, &|(i, x)| if p(&x) { Some((i, x)) } else { None }).into_iter().map(|c| c.into_iter().flatten().collect()).collect()
+        }
+    }
+
+    pub struct FilterMap<I, F> {
+        base: I,
+        f: F,
+    }
+
+    impl<I: ParallelIterator, F, R> ParallelIterator for FilterMap<I, F>
+    where
+        F: Fn(I::Item) -> Option<R> + Sync + Send,
+        R: Send,
+    {
+        type Item = R;
+        fn chunks_indexed(self) -> Vec<Vec<(usize, R)>> {
+            let items: Vec<(usize, I::Item)> = self.base.chunks_indexed().into_iter().flatten().collect();
+            let f = self.f;
+            par_map(items, &|(i, x)| f(x).map(|y| (i, y))).into_iter().map(|c| c.into_iter().flatten().collect()).collect()
+        }
+    }
+
+    pub struct Items<T>(pub(crate) Vec<T>);
 
     impl<T: Send> ParallelIterator for Items<T> {
         type Item = T;
-        fn chunks(self) -> Vec<Vec<T>> {
-            vec![self.0]
+        fn chunks_indexed(self) -> Vec<Vec<(usize, T)>> {
+            vec![self.0.into_iter().enumerate().collect()]
         }
     }
 
@@ -491,6 +759,45 @@ pub mod iter {
         }
     }
 
+    impl<T: Send> ParallelExtend<T> for Vec<T> {
+        fn par_extend<I>(&mut self, par_iter: I)
+        where
+            I: IntoParallelIterator<Item = T>,
+        {
+            self.extend(par_iter.into_par_iter().ordered());
+        }
+    }
+
+    pub trait IntoParallelRefIterator<'data> {
+        type Iter: ParallelIterator<Item = Self::Item>;
+        type Item: Send + 'data;
+        fn par_iter(&'data self) -> Self::Iter;
+    }
+
+    impl<'data, T: Sync + 'data> IntoParallelRefIterator<'data> for [T] {
+        type Iter = Items<&'data T>;
+        type Item = &'data T;
+        fn par_iter(&'data self) -> Self::Iter {
+            Items(self.iter().collect())
+        }
+    }
+
+    impl<'data, T: Sync + 'data> IntoParallelRefIterator<'data> for Vec<T> {
+        type Iter = Items<&'data T>;
+        type Item = &'data T;
+        fn par_iter(&'data self) -> Self::Iter {
+            Items(self.iter().collect())
+        }
+    }
+
+    impl<'data, K: Sync + 'data, V: Sync + 'data, S: 'data> IntoParallelRefIterator<'data> for HashMap<K, V, S> {
+        type Iter = Items<(&'data K, &'data V)>;
+        type Item = (&'data K, &'data V);
+        fn par_iter(&'data self) -> Self::Iter {
+            Items(self.iter().collect())
+        }
+    }
+
     pub trait IntoParallelRefMutIterator<'data> {
         type Iter: ParallelIterator<Item = Self::Item>;
         type Item: Send + 'data;
@@ -504,4 +811,52 @@ pub mod iter {
             Items(self.iter_mut().collect())
         }
     }
+
+    impl<'data, T: Send + 'data> IntoParallelRefMutIterator<'data> for Vec<T> {
+        type Iter = Items<&'data mut T>;
+        type Item = &'data mut T;
+        fn par_iter_mut(&'data mut self) -> Self::Iter {
+            Items(self.iter_mut().collect())
+        }
+    }
+}
+
+pub mod prelude {
+    pub use crate::iter::{
+        FromParallelIterator, IndexedParallelIterator, IntoParallelIterator, IntoParallelRefIterator, IntoParallelRefMutIterator, ParallelDrainRange, ParallelExtend, ParallelIterator,
+    };
+}
+
+/// `rayon::join`: both closures may run on different workers, in either order.
+pub fn join<A, B, RA, RB>(a: A, b: B) -> (RA, RB)
+where
+    A: FnOnce() -> RA + Send,
+    B: FnOnce() -> RB + Send,
+    RA: Send,
+    RB: Send,
+{
+    use std::sync::Mutex;
+    let fa = Mutex::new(Some(a));
+    let fb = Mutex::new(Some(b));
+    let ra: Mutex<Option<RA>> = Mutex::new(None);
+    let rb: Mutex<Option<RB>> = Mutex::new(None);
+    let _ = par_map(vec![0usize, 1], &|i| {
+        if i == 0 {
+            let f = fa.lock().unwrap().take().unwrap();
+            let v = f();
+            *ra.lock().unwrap() = Some(v);
+        } else {
+            let f = fb.lock().unwrap().take().unwrap();
+            let v = f();
+            *rb.lock().unwrap() = Some(v);
+        }
+    });
+    let x = ra.into_inner().unwrap().unwrap();
+    let y = rb.into_inner().unwrap().unwrap();
+    (x, y)
+}
+
+/// number of threads of the pool the caller runs in (1 outside any pool)
+pub fn current_num_threads() -> usize {
+    STATE.with(|s| s.borrow().pool.as_ref().map(|p| p.k).unwrap_or(1))
 }
